@@ -13,6 +13,14 @@
 //   <id> sysmat <base> <crs>                 -> the system matrix the library built from the arrays (rows sorted)
 //   <id> params <nset> (i|f|s name value)*   -> the tree behind the params handle after the setters
 //   <id> life <n> (op kind slot)*            -> handle life cycle script, prints OK <live handles>
+//   <id> hist <step>* end                    -> a call HISTORY on the C interface: the caller's buffers live at fixed
+//        addresses and are rewritten IN PLACE between calls (tails beyond the current length are ASan-poisoned), several
+//        handles are live at once, handles are destroyed and re-created (the allocator may hand out the same address
+//        again: every create prints the class H<k> of the address it returned).  One output item per step.
+//   <id> rhist <fresh> <step>* end           -> the C++ run-time interface driven by the CONTENTS trace that the Coq
+//        model (Capi2.run) computes for a history: objects are built from 0-based matrices / trees given by value,
+//        calls receive vectors by value (literal, or the x a previous step produced).  fresh=1: every call is issued
+//        on a fresh object built from the creation contents (statelessness, Capi2Proofs.stateless_fresh).
 #include <string>
 #include <vector>
 #include <fstream>
@@ -20,6 +28,15 @@
 #include <unistd.h>
 #include "vq_io.hpp"
 #include <lib/amgcl.cpp>
+#if defined(__SANITIZE_ADDRESS__)
+#include <sanitizer/asan_interface.h>
+#include <sanitizer/lsan_interface.h>
+#define VQ_POISON(p, n)   ASAN_POISON_MEMORY_REGION((p), (n))
+#define VQ_UNPOISON(p, n) ASAN_UNPOISON_MEMORY_REGION((p), (n))
+#else
+#define VQ_POISON(p, n)   ((void)0)
+#define VQ_UNPOISON(p, n) ((void)0)
+#endif
 
 using boost::property_tree::ptree;
 using vq::Tok;
@@ -240,6 +257,205 @@ VQ_OP(life) {
     for (auto &e : h) r += " " + std::to_string(e.first);
     // leftovers are destroyed so that the leak checker only reports library leaks
     for (auto &e : h) { if (e.second.first == 'p') amgcl_params_destroy(e.second.second); else if (e.second.first == 'a') amgcl_precond_destroy(e.second.second); else amgcl_solver_destroy(e.second.second); }
+    h.clear();
+#if defined(__SANITIZE_ADDRESS__)
+    if (__lsan_do_recoverable_leak_check()) r += " LEAK";    // (the exit-time report alone would go unnoticed: every case was answered)
+#endif
+    return r;
+}
+
+// ---------------------------------------------------------------- call histories
+// a caller-owned buffer with a fixed address: allocated once with its capacity, (re)written in place; the tail beyond
+// the current length is poisoned so that a read/write past the CURRENT end aborts under AddressSanitizer
+template <class T> struct Buf {
+    T *p; long cap, len;
+    Buf() : p(0), cap(0), len(0) {}
+    void write(long cap_, const std::vector<T> &v) {
+        if (!p) { cap = std::max<long>(cap_, (long)v.size()); if (sizeof(T) == 4 && (cap & 1)) ++cap; p = new T[cap > 0 ? cap : 1]; }
+        if ((long)v.size() > cap) throw std::runtime_error("hist: buffer capacity exceeded");
+        VQ_UNPOISON(p, sizeof(T) * cap);
+        std::copy(v.begin(), v.end(), p); len = (long)v.size();
+        if (cap > len) VQ_POISON(p + len, sizeof(T) * (cap - len));
+    }
+    void release() { if (p) { VQ_UNPOISON(p, sizeof(T) * cap); delete[] p; } p = 0; cap = len = 0; }
+};
+struct HSlot { char kind; amgclHandle h; };
+
+VQ_OP(hist) {
+    std::map<long, Buf<int> > ib; std::map<long, Buf<double> > db;
+    std::map<long, HSlot> hs;
+    std::vector<void*> seen;                      // handle values returned so far (address classes)
+    std::vector<std::string> out;
+    auto slot = [&](long s, char kind) -> amgclHandle { auto it = hs.find(s); return (it == hs.end() || it->second.kind != kind) ? (amgclHandle)0 : it->second.h; };
+    auto created = [&](long s, char kind, amgclHandle h) -> std::string {
+        hs[s] = HSlot{kind, h};
+        size_t k = 0; while (k < seen.size() && seen[k] != (void*)h) ++k;
+        if (k == seen.size()) seen.push_back((void*)h);
+        return "H" + std::to_string(k);
+    };
+    for (;;) {
+        std::string op = t.s();
+        if (op == "end") break;
+        std::string r = ".";
+        try {
+            if (op == "wi") { long b = t.i(), cap = t.i(); std::vector<long> v = t.ivec(); ib[b].write(cap, std::vector<int>(v.begin(), v.end())); }
+            else if (op == "wv" || op == "wx") { long b = t.i(), cap = t.i(); db[b].write(cap, t.vecT<double>()); }
+            else if (op == "fi") { long b = t.i(); ib[b].release(); ib.erase(b); }
+            else if (op == "fd") { long b = t.i(); db[b].release(); db.erase(b); }
+            else if (op == "pc") { long s = t.i(); r = created(s, 'p', amgcl_params_create()); }
+            else if (op == "ps") {
+                long s = t.i(); char kind = t.s()[0]; std::string name = t.s(), value = t.s();
+                amgclHandle h = slot(s, 'p'); if (!h) r = "NOHANDLE"; else apply_c(h, std::vector<SetOp>(1, SetOp{kind, name, value}));
+            }
+            else if (op == "pj") {
+                long s = t.i(); std::vector<SetOp> ops = read_sets(t);
+                amgclHandle h = slot(s, 'p');
+                if (!h) r = "NOHANDLE"; else {
+                    char name[] = "/tmp/vq_capi_XXXXXX"; int fd = mkstemp(name); if (fd >= 0) close(fd);
+                    { std::ofstream f(name); f << json_of(ops) << std::endl; }
+                    try { amgcl_params_read_json(h, name); } catch (...) { std::remove(name); throw; }
+                    std::remove(name);
+                }
+            }
+            else if (op == "pd") { long s = t.i(); amgclHandle h = slot(s, 'p'); if (!h) r = "NOHANDLE"; else { amgcl_params_destroy(h); hs.erase(s); } }
+            else if (op == "ac" || op == "sc") {
+                long s = t.i(), f = t.i(), n = t.i(), bp = t.i(), bc = t.i(), bv = t.i(); std::string ps = t.s();
+                amgclHandle prm = 0;
+                if (ps != "-") { prm = slot(std::stol(ps), 'p'); if (!prm) { out.push_back("NOHANDLE"); continue; } }
+                hs.erase(s);
+                const int *ptr = ib.at(bp).p, *col = ib.at(bc).p; const double *val = db.at(bv).p;
+                amgclHandle h = op == "ac" ? (f ? amgcl_precond_create_f((int)n, ptr, col, val, prm) : amgcl_precond_create((int)n, ptr, col, val, prm))
+                                           : (f ? amgcl_solver_create_f((int)n, ptr, col, val, prm) : amgcl_solver_create((int)n, ptr, col, val, prm));
+                r = created(s, op == "ac" ? 'a' : 's', h);
+            }
+            else if (op == "aa") {
+                long s = t.i(), br = t.i(), bx = t.i();
+                amgclHandle h = slot(s, 'a');
+                if (!h) r = "NOHANDLE"; else {
+                    Buf<double> &x = db.at(bx);
+                    try { amgcl_precond_apply(h, db.at(br).p, x.p); r = res_line(0, 0.0, x.p, x.len); }
+                    catch (const std::exception &e) { r = "EXC " + vq::exc_kind(e) + " x=" + fnv(x.p, x.len); }
+                }
+            }
+            else if (op == "ss" || op == "sm") {
+                long s = t.i(), f = t.i();
+                long bp = 0, bc = 0, bv = 0; if (op == "sm") { bp = t.i(); bc = t.i(); bv = t.i(); }
+                long br = t.i(), bx = t.i();
+                amgclHandle h = slot(s, 's');
+                if (!h) r = "NOHANDLE"; else {
+                    Buf<double> &x = db.at(bx);
+                    conv_info cnv; cnv.iterations = -1; cnv.residual = 0;
+                    try {
+                        if (op == "ss") { if (f) amgcl_solver_solve_f(h, db.at(br).p, x.p, &cnv); else cnv = amgcl_solver_solve(h, db.at(br).p, x.p); }
+                        else if (f) amgcl_solver_solve_mtx_f(h, ib.at(bp).p, ib.at(bc).p, db.at(bv).p, db.at(br).p, x.p, &cnv);
+                        else cnv = amgcl_solver_solve_mtx(h, ib.at(bp).p, ib.at(bc).p, db.at(bv).p, db.at(br).p, x.p);
+                        r = res_line(cnv.iterations, cnv.residual, x.p, x.len);
+                    } catch (const std::exception &e) { r = "EXC " + vq::exc_kind(e) + " x=" + fnv(x.p, x.len); }
+                }
+            }
+            else if (op == "ad") { long s = t.i(); amgclHandle h = slot(s, 'a'); if (!h) r = "NOHANDLE"; else { amgcl_precond_destroy(h); hs.erase(s); } }
+            else if (op == "sd") { long s = t.i(); amgclHandle h = slot(s, 's'); if (!h) r = "NOHANDLE"; else { amgcl_solver_destroy(h); hs.erase(s); } }
+            else throw std::runtime_error("hist: unknown step " + op);
+        } catch (const std::out_of_range &) { throw; }
+          catch (const std::exception &e) { r = "EXC " + vq::exc_kind(e); }
+        out.push_back(r);
+    }
+    std::string live = "live";
+    for (auto &e : hs) live += " " + std::to_string(e.first);
+    // leftovers are destroyed and the buffers released, so that the leak checker only sees what the library lost
+    for (auto &e : hs) { if (e.second.kind == 'p') amgcl_params_destroy(e.second.h); else if (e.second.kind == 'a') amgcl_precond_destroy(e.second.h); else amgcl_solver_destroy(e.second.h); }
+    for (auto &e : ib) e.second.release();
+    for (auto &e : db) e.second.release();
+    hs.clear(); ib.clear(); db.clear(); seen.clear();
+    std::string r;
+    for (size_t k = 0; k < out.size(); ++k) r += (k ? " ; " : "") + out[k];
+    r += " | " + live;
+#if defined(__SANITIZE_ADDRESS__)
+    if (__lsan_do_recoverable_leak_check()) r += " | LEAK";
+#endif
+    return r;
+}
+
+// ---- the C++ run-time interface on a contents trace
+static ptree parse_tree(const std::string &s, size_t &i) {
+    ptree t;
+    size_t j = i;
+    while (j < s.size() && s[j] != '[') ++j;
+    if (j >= s.size()) throw std::runtime_error("tree: missing [");
+    t.data() = s.substr(i, j - i);
+    i = j + 1;
+    if (s[i] == ']') { ++i; return t; }
+    for (;;) {
+        size_t e = s.find('=', i);
+        if (e == std::string::npos) throw std::runtime_error("tree: missing =");
+        std::string k = s.substr(i, e - i);
+        i = e + 1;
+        ptree c = parse_tree(s, i);
+        t.push_back(std::make_pair(k, c));
+        if (s[i] == ',') { ++i; continue; }
+        if (s[i] == ']') { ++i; break; }
+        throw std::runtime_error("tree: expected , or ]");
+    }
+    return t;
+}
+struct RMat {
+    int n; std::vector<int> ptr, col; std::vector<double> val;
+    void read(Tok &t) {
+        auto A = t.crsT<double>();
+        n = (int)A->nrows; ptr.assign(A->ptr, A->ptr + n + 1); col.assign(A->col, A->col + A->nnz); val.assign(A->val, A->val + A->nnz);
+    }
+};
+struct RObj {
+    char kind; RMat A; bool has_prm; ptree prm;
+    std::shared_ptr<AMG> amg; std::shared_ptr<Solver> slv;
+    void build() {
+        auto M = std::make_tuple(A.n, A.ptr, A.col, A.val);
+        if (kind == 'a') amg = has_prm ? std::make_shared<AMG>(M, prm) : std::make_shared<AMG>(M);
+        else             slv = has_prm ? std::make_shared<Solver>(M, prm) : std::make_shared<Solver>(M);
+    }
+};
+
+VQ_OP(rhist) {
+    bool fresh = t.i() != 0;
+    std::map<long, RObj> objs; std::map<long, std::vector<double> > xs;
+    std::vector<std::string> out;
+    auto readx = [&]() -> std::vector<double> {
+        std::string k = t.s();
+        if (k == "L") return t.vecT<double>();
+        return xs.at(t.i());
+    };
+    for (;;) {
+        std::string op = t.s();
+        if (op == "end") break;
+        std::string r;
+        if (op == "new") {
+            long id = t.i(); RObj o; o.kind = t.s()[0]; long n = t.i(); o.A.read(t); (void)n;
+            std::string tr = t.s(); o.has_prm = tr != "-"; if (o.has_prm) { size_t i = 0; o.prm = parse_tree(tr, i); }
+            try { o.build(); objs[id] = o; r = "H"; } catch (const std::exception &e) { r = "EXC " + vq::exc_kind(e); }
+        } else {
+            long id = t.i(), k = t.i();
+            RMat B; if (op == "mtx") B.read(t);
+            std::vector<double> rhs = readx(), x = readx();
+            auto it = objs.find(id);
+            if (it == objs.end()) r = "NOHANDLE"; else {
+                RObj tmp; RObj *o = &it->second;
+                try {
+                    if (fresh) { tmp.kind = o->kind; tmp.A = o->A; tmp.has_prm = o->has_prm; tmp.prm = o->prm; tmp.build(); o = &tmp; }
+                    if (op == "app") { o->amg->apply(rhs, x); r = res_line(0, 0.0, x.data(), x.size()); }
+                    else {
+                        size_t its; double res;
+                        if (op == "slv") std::tie(its, res) = (*o->slv)(rhs, x);
+                        else std::tie(its, res) = (*o->slv)(std::make_tuple(B.n, B.ptr, B.col, B.val), rhs, x);
+                        r = res_line(its, res, x.data(), x.size());
+                    }
+                } catch (const std::exception &e) { r = "EXC " + vq::exc_kind(e) + " x=" + fnv(x.data(), x.size()); }
+            }
+            xs[k] = x;
+        }
+        out.push_back(r);
+    }
+    std::string r;
+    for (size_t k = 0; k < out.size(); ++k) r += (k ? " ; " : "") + out[k];
     return r;
 }
 
